@@ -40,6 +40,12 @@
   --     proved: the line-3 recursion (at most once, strictly smaller event); the line-6 recursion on the original graph
   --     is only shown to be well defined for every fuel and monotone in the fuel; that `2|V| + |event| + 4` always
   --     suffices is checked on every generated input by the correspondence (the model would answer `internal fuel`).
+  --     Proof plan (not mechanised): a line-6 event E_D has all keys in ONE world P (the pillow) and is parent-closed:
+  --     pa_G(bases D) ⊆ bases D ∪ names P, because every parent of a district node is in the district or in its pillow.  In the
+  --     recursive call the non-self-intervened nodes of the counterfactual graph are then single copies of variables in
+  --     bases D \ names P (a factual copy enters only by merging, which needs un-intervened ancestors), so a further split into
+  --     ≥ 2 districts yields events with strictly fewer keys: the measure |keys| decreases from the second level on.
+  --     Observed depth on 6 000 random inputs with ≤ 5 nodes: ≤ 3.
 -/
 import Y0.Model.IdStar
 import Y0.Lemmas.CfFscm
